@@ -376,6 +376,9 @@ def specs(tier):
             out.append(("scenario[M10;foi;%s;%s]" % (method, tag), dict(name="M10", pattern="assumption", scenario=("foi", "pop_0", st, None, method))))
             if tier != "quick" or method == "linear":
                 out.append(("scenario[M10;beta;%s;%s]" % (method, tag), dict(name="M10", pattern="two_inside", scenario=("beta", "pop_0", st, None, method))))
+        # precomputed function parameter (base: function of data parameters only) and output-only function parameter (foi2)
+        out.append(("scenario[M10;base(precomputed);%s;ongrid]" % method, dict(name="M10", pattern="assumption", scenario=("base", "pop_0", [2000.25, 2000.5], None, method))))
+        out.append(("scenario[M10;foi2(output only);%s;offgrid]" % method, dict(name="M10", pattern="assumption", scenario=("foi2", "pop_0", [2000.3, 2000.45], None, method))))
     return out
 
 
